@@ -166,7 +166,17 @@ def build_world(sc: dict) -> W.World:
             key = peer.name + "|" + req.target
         ent = web.get(key) if key else None
         req_origin = key.split("|")[0] if key else "?"
-        world.tags.setdefault("log", []).append((req_origin, req))
+        log = world.tags.setdefault("log", [])
+        log.append((req_origin, req))
+        # fault dimension: the first `fail_first` visits of a node lose the connection instead of being answered
+        ff = (sc.get("faults") or {}).get(key) if key else None
+        if ff:
+            seen = world.tags.setdefault("visits", {})
+            seen[key] = seen.get(key, 0) + 1
+            if seen[key] <= int(ff.get("n", 1)):
+                world.tags.setdefault("failed_idx", set()).add(len(log) - 1)
+                world.faults_fired["exchange:" + ff.get("kind", "eof")] += 1
+                return {"k": ff.get("kind", "eof")}
         if ent is None:
             return {"k": "resp", "status": 200, "body": "final"}
         spec = {"k": "resp", "status": ent["status"], "body": "redir"}
@@ -306,6 +316,10 @@ def shrink_web(sc):
     for key in list(sc["web"]):
         c = copy.deepcopy(sc)
         del c["web"][key]
+        yield c
+    for key in list(sc.get("faults") or {}):
+        c = copy.deepcopy(sc)
+        del c["faults"][key]
         yield c
     cfg = sc["config"]
     if cfg.get("headers"):
